@@ -3,12 +3,22 @@ import RedunModel.Model.BStruct
 open RedunModel RedunModel.BStruct
 
 /- requests:
-   `enc <pyval>`  reply: hex of the encoding, or `!TypeError`
+   `enc <pyval>`  reply: hex of the encoding, or `!TypeError` / `!ValueError` (`encodeE`)
    `dec <hex>`    reply: `ok <dval> <unread byte count>` or `!TypeError|!ValueError|!AssertionError|!OverflowError`
                   with dval ::= N | i<int> | b<hex> | (L dval*) | (D (b<hex> dval)*)  -- the Python dict view (`canonD`)
    `decraw <hex>` same, dict items in stream order (duplicates kept)
-   pyval ::= i<int> | T | F | N | f | s<hex> | b<hex> | (L v*) | (U v*) | (D (k v)*)
+   pyval ::= i<int> | h<hex of |z|> | h-<hex of |z|> (ints too big for Python to print in decimal) | T | F | N | f | s<hex> | b<hex> | (L v*) | (U v*) | (D (k v)*)
 -/
+def natOfHexChars : List Char → Option Nat
+  | [] => none
+  | cs => cs.foldlM (fun acc c => (hexVal c).map (acc * 16 + ·)) 0
+
+def intOfHexAtom (a : String) : Option Int :=
+  match a.toList with
+  | 'h' :: '-' :: r => (natOfHexChars r).map fun n => -(Int.ofNat n)
+  | 'h' :: r => (natOfHexChars r).map Int.ofNat
+  | _ => none
+
 mutual
   partial def toPy : Sexp → Option PyVal
     | .atom "T" => some (.bool true)
@@ -22,6 +32,7 @@ mutual
         match a.toList with
         | 's' :: r => (bytesOfHex (String.ofList r)).map .str
         | 'b' :: r => (bytesOfHex (String.ofList r)).map .bytes
+        | 'h' :: _ => (intOfHexAtom a).map .int
         | _ => none
     | .list (.atom "L" :: items) => (toPyList items).map .list
     | .list (.atom "U" :: items) => (toPyList items).map .tuple
@@ -82,9 +93,10 @@ def step (_ : Unit) (line : String) : Unit × String :=
   match Sexp.parseLine line with
   | some [.atom "enc", x] =>
     match toPy x with
-    | some v => match norm v with
-      | some b => ((), hexOfBytes (enc b))
-      | none => ((), "!TypeError")
+    | some v => match encodeE v with
+      | .ok bs => ((), hexOfBytes bs)
+      | .error .type => ((), "!TypeError")
+      | .error .value => ((), "!ValueError")
     | none => ((), "bad-value")
   | some [.atom "dec", .atom h] => ((), decReply canonD h)
   | some [.atom "dec"] => ((), decReply canonD "")
